@@ -8,12 +8,12 @@
                       one file patch (apply_one_file_patch) and fetch_min
      BarrierApply     all workers done applying: final := earliest; an error of any
                       worker ends the run before anything is written
-     RollPast(w)      rollback_worker: undo everything behind the final patch
-     RejStep(w)       rollback_and_save_rej_files, one stack entry per step
-     BarrierReject    all rejects written before anybody saves
+     RollPast(w)      save_files_worker: undo everything behind the final patch, then the entries of the
+                      failed patch (rollback_rejected_patch); the failed ones are kept for the main thread
      SaveStep(w)      save_modified_file micro-operations: unlink | mkdir -p | create(+chmod+write)
      BackupStep(w)    rollback_and_save_backup_files, one stack entry per step
      CleanStep        main thread: clean_empty_directories, readdir | rmdir per directory
+     RejStep          main thread: save_rej_files, one rejected file patch per step
      Finish           save_applied_patches, exit status
 
    The property side is Outcome.tla; the invariants at the end state that the
@@ -30,16 +30,16 @@ VARIABLES
   scn,        \* the scenario: [tree0, series, cfg, failAt, assign]  (constant after Init)
   files,      \* disk: path -> [ex, cells, mode, ino]
   dirs,       \* disk: set of existing directories (of the universe: "d")
-  rej,        \* disk: set of reject records [path, failed]
+  rej,        \* disk: set of reject files [path, parts : Seq(set of failed hunk indexes), one per file patch]
   bak,        \* disk: set of backup records [patch, path, cells, mode]
   applied,    \* disk: number of names appended to .pc/applied-patches
   exit,       \* "running" | "ok" | "failed" | "error"
   nextIno, written,      \* inode allocator; set of start inodes that were written in place
   queue, mem, stack, wpc, cur, err,     \* per worker
-  earliest, final, cleanq, mainpc, ops, faulted
+  earliest, final, cleanq, rejq, mainpc, ops, faulted
 
 vars == <<scn, files, dirs, rej, bak, applied, exit, nextIno, written, queue, mem, stack, wpc, cur, err,
-          earliest, final, cleanq, mainpc, ops, faulted>>
+          earliest, final, cleanq, rejq, mainpc, ops, faulted>>
 
 NSeries == Len(scn.series)
 
@@ -159,7 +159,7 @@ InitWith(sc) ==
   /\ cur = [w \in Workers |-> [p |-> "", stage |-> "none"]]
   /\ err = [w \in Workers |-> FALSE]
   /\ earliest = Len(sc.series) + 1          \* 1-based patch indexes: "no failure" = n + 1
-  /\ final = 0 /\ cleanq = {} /\ mainpc = "workers" /\ ops = 0 /\ faulted = FALSE
+  /\ final = 0 /\ cleanq = {} /\ rejq = {} /\ mainpc = "workers" /\ ops = 0 /\ faulted = FALSE
 
 \* an output operation: counted; the failAt-th one fails
 Fails == scn.failAt > 0 /\ ops + 1 = scn.failAt
@@ -179,14 +179,14 @@ Consider(w) ==
              /\ queue' = [queue EXCEPT ![w] = Tail(@)]
              /\ UNCHANGED wpc
   /\ NoOp
-  /\ UNCHANGED <<scn, files, dirs, rej, bak, applied, exit, nextIno, written, cur, err, final, cleanq, mainpc>>
+  /\ UNCHANGED <<scn, files, dirs, rej, bak, applied, exit, nextIno, written, cur, err, final, cleanq, rejq, mainpc>>
 
 BarrierApply ==
   /\ \A w \in Workers : wpc[w] = "applied"
   /\ final' = earliest
   /\ wpc' = [w \in Workers |-> "rollpast"]
   /\ NoOp
-  /\ UNCHANGED <<scn, files, dirs, rej, bak, applied, exit, nextIno, written, queue, mem, stack, cur, err, earliest, cleanq, mainpc>>
+  /\ UNCHANGED <<scn, files, dirs, rej, bak, applied, exit, nextIno, written, queue, mem, stack, cur, err, earliest, cleanq, rejq, mainpc>>
 
 (* ---- reject phase ---- *)
 RECURSIVE RollPastF(_, _, _)
@@ -195,37 +195,27 @@ RollPastF(m, st, fin) ==
   ELSE IF st[Len(st)].idx <= fin THEN [mem |-> m, stack |-> st]
   ELSE RollPastF(RollbackOne(m, st[Len(st)]), SubSeq(st, 1, Len(st) - 1), fin)
 
+\* entries of the failed patch: rolled back; the ones with failed hunks are handed to the main thread
+RECURSIVE RollFailed(_, _, _, _)
+RollFailed(m, st, fin, acc) ==
+  IF st = <<>> THEN [mem |-> m, stack |-> st, rejected |-> acc]
+  ELSE IF st[Len(st)].idx < fin THEN [mem |-> m, stack |-> st, rejected |-> acc]
+  ELSE LET e == st[Len(st)]
+       IN RollFailed(RollbackOne(m, e), SubSeq(st, 1, Len(st) - 1), fin,
+                     IF e.failed # {} THEN acc \cup {[path |-> e.target, failed |-> e.failed, n |-> Len(st)]} ELSE acc)
+
 RollPast(w) ==
   /\ wpc[w] = "rollpast"
-  /\ LET r == RollPastF(mem[w], stack[w], final) IN
-       /\ mem' = [mem EXCEPT ![w] = r.mem]
-       /\ stack' = [stack EXCEPT ![w] = r.stack]
-  /\ wpc' = [wpc EXCEPT ![w] = IF scn.cfg.dry THEN "rejected" ELSE "rej"]
+  /\ LET r == RollPastF(mem[w], stack[w], final)
+         f == RollFailed(r.mem, r.stack, final, {})
+     IN IF scn.cfg.dry
+        THEN /\ mem' = [mem EXCEPT ![w] = r.mem] /\ stack' = [stack EXCEPT ![w] = r.stack] /\ UNCHANGED rejq
+        ELSE /\ mem' = [mem EXCEPT ![w] = f.mem] /\ stack' = [stack EXCEPT ![w] = f.stack] /\ rejq' = rejq \cup f.rejected
+  /\ wpc' = [wpc EXCEPT ![w] = IF scn.cfg.dry THEN "done" ELSE "save"]
   /\ NoOp
   /\ UNCHANGED <<scn, files, dirs, rej, bak, applied, exit, nextIno, written, queue, cur, err, earliest, final, cleanq, mainpc>>
 
 DirOnDisk(d) == d = "" \/ d \in dirs
-
-\* one entry of the failing patch: roll it back in memory; write its reject file if it failed and the directory is there
-RejStep(w) ==
-  /\ wpc[w] = "rej"
-  /\ IF stack[w] = <<>> THEN wpc' = [wpc EXCEPT ![w] = "rejected"] /\ UNCHANGED <<mem, stack, rej, err>> /\ NoOp
-     ELSE IF stack[w][Len(stack[w])].idx < final THEN wpc' = [wpc EXCEPT ![w] = "rejected"] /\ UNCHANGED <<mem, stack, rej, err>> /\ NoOp
-     ELSE LET st == stack[w][Len(stack[w])] IN
-          /\ mem' = [mem EXCEPT ![w] = RollbackOne(@, st)]
-          /\ IF st.failed = {} THEN UNCHANGED <<rej, err, wpc>> /\ NoOp /\ stack' = [stack EXCEPT ![w] = SubSeq(@, 1, Len(@) - 1)]
-             ELSE /\ Count
-                  /\ IF Fails THEN err' = [err EXCEPT ![w] = TRUE] /\ wpc' = [wpc EXCEPT ![w] = "rejected"] /\ UNCHANGED <<rej, stack>>
-                     ELSE /\ rej' = IF DirOnDisk(ParentDir(st.target)) THEN rej \cup {[path |-> st.target, failed |-> st.failed]} ELSE rej
-                          /\ stack' = [stack EXCEPT ![w] = SubSeq(@, 1, Len(@) - 1)]
-                          /\ UNCHANGED <<err, wpc>>
-  /\ UNCHANGED <<scn, files, dirs, bak, applied, exit, nextIno, written, queue, cur, earliest, final, cleanq, mainpc>>
-
-BarrierReject ==
-  /\ \A w \in Workers : wpc[w] = "rejected"
-  /\ wpc' = [w \in Workers |-> IF err[w] THEN "done" ELSE IF scn.cfg.dry THEN "done" ELSE "save"]
-  /\ NoOp
-  /\ UNCHANGED <<scn, files, dirs, rej, bak, applied, exit, nextIno, written, queue, mem, stack, cur, err, earliest, final, cleanq, mainpc>>
 
 (* ---- save phase ---- *)
 Unsaved(w) == {p \in Paths : mem[w][p].loaded}
@@ -277,7 +267,7 @@ SaveStep(w) ==
                 /\ cur' = [cur EXCEPT ![w] = [p |-> "", stage |-> "none"]]
                 /\ UNCHANGED <<wpc, err>>
         /\ UNCHANGED <<dirs, cleanq>>
-  /\ UNCHANGED <<scn, rej, bak, applied, exit, queue, stack, earliest, final, mainpc>>
+  /\ UNCHANGED <<scn, rej, bak, applied, exit, queue, stack, earliest, final, rejq, mainpc>>
 
 (* ---- backups: one stack entry per step, newest first; only entries inside the window ---- *)
 DoBackup == scn.cfg.backup = "always" \/ (scn.cfg.backup = "onfail" /\ final # NSeries + 1)
@@ -299,7 +289,7 @@ BackupStep(w) ==
                      \* a later write for the same (patch, path) replaces the earlier one
                      /\ bak' = {b \in bak : ~\E n \in new : n.patch = b.patch /\ n.path = b.path} \cup new
                      /\ UNCHANGED <<wpc, err>>
-  /\ UNCHANGED <<scn, files, dirs, rej, applied, exit, nextIno, written, queue, cur, earliest, final, cleanq, mainpc>>
+  /\ UNCHANGED <<scn, files, dirs, rej, applied, exit, nextIno, written, queue, cur, earliest, final, cleanq, rejq, mainpc>>
 
 (* ---- main thread after the workers ---- *)
 AnyErr == \E w \in Workers : err[w]
@@ -311,18 +301,35 @@ Join ==
   /\ mainpc' = IF AnyErr THEN "exit" ELSE IF scn.cfg.dry THEN "record" ELSE "clean"
   /\ exit' = IF AnyErr THEN "error" ELSE exit
   /\ NoOp
-  /\ UNCHANGED <<scn, files, dirs, rej, bak, applied, nextIno, written, queue, mem, stack, wpc, cur, err, earliest, final, cleanq>>
+  /\ UNCHANGED <<scn, files, dirs, rej, bak, applied, nextIno, written, queue, mem, stack, wpc, cur, err, earliest, final, cleanq, rejq>>
 
 CleanStep ==
   /\ mainpc = "clean"
-  /\ IF cleanq = {} THEN mainpc' = "record" /\ UNCHANGED <<cleanq, dirs, exit>> /\ NoOp
+  /\ IF cleanq = {} THEN mainpc' = "rejects" /\ UNCHANGED <<cleanq, dirs, exit>> /\ NoOp
      ELSE \E d \in cleanq :
             /\ cleanq' = cleanq \ {d}
             /\ Count
             /\ IF Fails THEN mainpc' = "exit" /\ exit' = "error" /\ UNCHANGED dirs
                ELSE /\ dirs' = IF d \in dirs /\ DirEmpty(d) THEN dirs \ {d} ELSE dirs
                     /\ UNCHANGED <<mainpc, exit>>
-  /\ UNCHANGED <<scn, files, rej, bak, applied, nextIno, written, queue, mem, stack, wpc, cur, err, earliest, final>>
+  /\ UNCHANGED <<scn, files, rej, bak, applied, nextIno, written, queue, mem, stack, wpc, cur, err, earliest, final, rejq>>
+
+\* save_rej_files in the main thread: one rejected file patch per step, in the order of the patch; the first
+\* one for a file creates the reject file, later ones append to it
+RejStep ==
+  /\ mainpc = "rejects"
+  /\ IF rejq = {} THEN mainpc' = "record" /\ UNCHANGED <<rejq, rej, exit>> /\ NoOp
+     ELSE \E r \in rejq :
+            /\ \A q \in rejq : q.path = r.path => r.n <= q.n
+            /\ rejq' = rejq \ {r}
+            /\ Count
+            /\ IF Fails THEN mainpc' = "exit" /\ exit' = "error" /\ UNCHANGED rej
+               ELSE /\ rej' = IF ~DirOnDisk(ParentDir(r.path)) THEN rej
+                              ELSE IF \E x \in rej : x.path = r.path
+                                   THEN {IF x.path = r.path THEN [x EXCEPT !.parts = Append(@, r.failed)] ELSE x : x \in rej}
+                                   ELSE rej \cup {[path |-> r.path, parts |-> <<r.failed>>]}
+                    /\ UNCHANGED <<mainpc, exit>>
+  /\ UNCHANGED <<scn, files, dirs, bak, applied, nextIno, written, queue, mem, stack, wpc, cur, err, earliest, final, cleanq>>
 
 Finish ==
   /\ mainpc = "record"
@@ -332,10 +339,10 @@ Finish ==
           /\ IF Fails THEN exit' = "error" /\ UNCHANGED applied
              ELSE /\ applied' = final - 1
                   /\ exit' = (IF final = NSeries + 1 THEN "ok" ELSE "failed")
-  /\ UNCHANGED <<scn, files, dirs, rej, bak, nextIno, written, queue, mem, stack, wpc, cur, err, earliest, final, cleanq>>
+  /\ UNCHANGED <<scn, files, dirs, rej, bak, nextIno, written, queue, mem, stack, wpc, cur, err, earliest, final, cleanq, rejq>>
 
-Step == \/ \E w \in Workers : Consider(w) \/ RollPast(w) \/ RejStep(w) \/ SaveStep(w) \/ BackupStep(w)
-        \/ BarrierApply \/ BarrierReject \/ Join \/ CleanStep \/ Finish
+Step == \/ \E w \in Workers : Consider(w) \/ RollPast(w) \/ SaveStep(w) \/ BackupStep(w)
+        \/ BarrierApply \/ Join \/ CleanStep \/ RejStep \/ Finish
 
 -----------------------------------------------------------------------------
 (* The properties *)
@@ -350,7 +357,7 @@ SameAsRef ==
     /\ DiskTree = Ref.tree
     /\ applied = Ref.applied
     /\ (exit = "ok") = (Ref.exit = 0)
-    /\ Ref.rejects \subseteq rej /\ rej \subseteq (Ref.rejects \cup Ref.rejectsOptional)
+    /\ rej = {[path |-> x.path, parts |-> [i \in 1..Len(x.parts) |-> x.parts[i].failed]] : x \in Ref.rejects}
     /\ bak = Ref.backups
     /\ dirs = ({ParentDir(p) : p \in {q \in Paths : Ref.tree[q].ex}} \cup {ParentDir(r.path) : r \in rej}) \ {""}
 
